@@ -1,11 +1,13 @@
 /-
   RoProofs.OpsGen — tools for RoProps/C04gen.lean: the machines regenerated from the Go source
-  (RoGen/OpsGen.lean) are proved EQUAL to the hand-written ones (RoModel/Ops/*.lean).
+  (RoGen/OpsGen.lean) are proved EQUAL to the hand-written ones (RoModel/Ops/*.lean), or — where the
+  natural state encoding of the Go code differs from the hand-written one — to SIMULATE them
+  (`Machine.Sim`, `Machine.Sim.run`: same trace, drops, steps and gates for every raw script).
   `Machine` is a structure of functions, so equality is field-wise function extensionality.
 -/
 import RoModel.Ops.Aggregate
 namespace Ro
-variable {σ α β : Type}
+variable {σ σ₁ σ₂ α β : Type}
 
 /-- two machines are equal when their six fields agree pointwise -/
 theorem Machine.ext' {m1 m2 : Machine σ α β}
@@ -32,5 +34,182 @@ macro_rules
         | rfl
         | (simp only [$a:ident, $b:ident] <;> repeat' split) <;>
             first | rfl | (simp_all <;> omega) | (simp_all [Prod.ext_iff])))
+
+/-! ### refinement: a regenerated machine with its own natural state encoding simulates the
+    hand-written one -/
+
+/-- `m1` refines `m2` through the state relation `R`: related initial states, and every reaction
+    from related states makes the same emissions and ends in related states. -/
+structure Machine.Sim (R : σ₁ → σ₂ → Prop) (m1 : Machine σ₁ α β) (m2 : Machine σ₂ α β) : Prop where
+  init : R m1.init m2.init
+  subscribes : m1.subscribes = m2.subscribes
+  onSubscribe : ∀ s1 s2 c, R s1 s2 →
+    R (m1.onSubscribe s1 c).1 (m2.onSubscribe s2 c).1 ∧ (m1.onSubscribe s1 c).2 = (m2.onSubscribe s2 c).2
+  onNext : ∀ s1 s2 c v, R s1 s2 →
+    R (m1.onNext s1 c v).1 (m2.onNext s2 c v).1 ∧ (m1.onNext s1 c v).2 = (m2.onNext s2 c v).2
+  onError : ∀ s1 s2 c e, R s1 s2 →
+    R (m1.onError s1 c e).1 (m2.onError s2 c e).1 ∧ (m1.onError s1 c e).2 = (m2.onError s2 c e).2
+  onComplete : ∀ s1 s2 c, R s1 s2 →
+    R (m1.onComplete s1 c).1 (m2.onComplete s2 c).1 ∧ (m1.onComplete s1 c).2 = (m2.onComplete s2 c).2
+
+/-- two run states that differ only in the (related) machine state -/
+structure RunSt.Rel (R : σ₁ → σ₂ → Prop) (r1 : RunSt σ₁ α β) (r2 : RunSt σ₂ α β) : Prop where
+  st : R r1.st r2.st
+  upOpen : r1.upOpen = r2.upOpen
+  downOpen : r1.downOpen = r2.downOpen
+  out : r1.out = r2.out
+  drops : r1.drops = r2.drops
+  steps : r1.steps = r2.steps
+
+theorem Machine.Sim.step {R : σ₁ → σ₂ → Prop} {m1 : Machine σ₁ α β} {m2 : Machine σ₂ α β}
+    (h : m1.Sim R m2) (s1 : σ₁) (s2 : σ₂) (x : Notif α) (hr : R s1 s2) :
+    R (m1.step s1 x).1 (m2.step s2 x).1 ∧ (m1.step s1 x).2 = (m2.step s2 x).2 := by
+  cases x with
+  | next c v => exact h.onNext s1 s2 c v hr
+  | error c e => exact h.onError s1 s2 c e hr
+  | complete c => exact h.onComplete s1 s2 c hr
+
+theorem RunSt.Rel.push {R : σ₁ → σ₂ → Prop} {r1 : RunSt σ₁ α β} {r2 : RunSt σ₂ α β}
+    (h : RunSt.Rel R r1 r2) (n : Notif β) : RunSt.Rel R (r1.push n) (r2.push n) := by
+  have hd := h.downOpen
+  unfold RunSt.push
+  cases h2 : r2.downOpen <;> rw [h2] at hd <;> simp only [hd, Bool.false_eq_true, if_false, if_true]
+  · exact ⟨h.st, h.upOpen, rfl, h.out, by simp [h.drops], h.steps⟩
+  · exact ⟨h.st, h.upOpen, rfl, by simp [h.out], h.drops, h.steps⟩
+
+theorem RunSt.Rel.pushAll {R : σ₁ → σ₂ → Prop} (ns : List (Notif β)) {r1 : RunSt σ₁ α β} {r2 : RunSt σ₂ α β}
+    (h : RunSt.Rel R r1 r2) : RunSt.Rel R (r1.pushAll ns) (r2.pushAll ns) := by
+  induction ns generalizing r1 r2 with
+  | nil => exact h
+  | cons n ns ih => exact ih (h.push n)
+
+theorem RunSt.Rel.settle {R : σ₁ → σ₂ → Prop} {r1 : RunSt σ₁ α β} {r2 : RunSt σ₂ α β}
+    (h : RunSt.Rel R r1 r2) (mode : SrcMode) (t : Bool) (n1 n2 : Nat) (hn : n1 = n2) :
+    RunSt.Rel R (r1.settle mode t n1) (r2.settle mode t n2) := by
+  subst hn
+  unfold RunSt.settle
+  exact ⟨h.st, by simp [h.downOpen], h.downOpen, h.out, h.drops, by simp [h.steps, h.out]⟩
+
+theorem RunSt.Rel.feed {R : σ₁ → σ₂ → Prop} {m1 : Machine σ₁ α β} {m2 : Machine σ₂ α β}
+    (hs : m1.Sim R m2) (mode : SrcMode) {r1 : RunSt σ₁ α β} {r2 : RunSt σ₂ α β}
+    (h : RunSt.Rel R r1 r2) (x : Notif α) : RunSt.Rel R (RunSt.feed m1 mode r1 x) (RunSt.feed m2 mode r2 x) := by
+  have hstep := hs.step r1.st r2.st x h.st
+  unfold RunSt.feed
+  by_cases h1 : r1.upOpen = true
+  · have h2 : r2.upOpen = true := h.upOpen ▸ h1
+    rw [if_pos h1, if_pos h2, hstep.2]
+    have h0 : RunSt.Rel R { r1 with st := (m1.step r1.st x).1 } { r2 with st := (m2.step r2.st x).1 } :=
+      ⟨hstep.1, h.upOpen, h.downOpen, h.out, h.drops, h.steps⟩
+    exact RunSt.Rel.settle (h0.pushAll _) mode _ _ _ (by rw [h.out])
+  · have h2 : ¬ r2.upOpen = true := h.upOpen ▸ h1
+    rw [if_neg h1, if_neg h2]
+    exact ⟨h.st, h.upOpen, h.downOpen, h.out, by simp [h.drops], by simp [h.steps]⟩
+
+theorem RunSt.Rel.foldFeed {R : σ₁ → σ₂ → Prop} {m1 : Machine σ₁ α β} {m2 : Machine σ₂ α β}
+    (hs : m1.Sim R m2) (mode : SrcMode) (raw : List (Notif α)) {r1 : RunSt σ₁ α β} {r2 : RunSt σ₂ α β}
+    (h : RunSt.Rel R r1 r2) : RunSt.Rel R (raw.foldl (RunSt.feed m1 mode) r1) (raw.foldl (RunSt.feed m2 mode) r2) := by
+  induction raw generalizing r1 r2 with
+  | nil => exact h
+  | cons x xs ih => exact ih (h.feed hs mode x)
+
+theorem Machine.Sim.start {R : σ₁ → σ₂ → Prop} {m1 : Machine σ₁ α β} {m2 : Machine σ₂ α β}
+    (hs : m1.Sim R m2) (sub : Ctx) : RunSt.Rel R (m1.start sub) (m2.start sub) := by
+  unfold Machine.start
+  have h := hs.onSubscribe m1.init m2.init sub hs.init
+  have h0 : RunSt.Rel R ({ st := (m1.onSubscribe m1.init sub).1 } : RunSt σ₁ α β) ({ st := (m2.onSubscribe m2.init sub).1 } : RunSt σ₂ α β) :=
+    ⟨h.1, rfl, rfl, rfl, rfl, rfl⟩
+  rw [h.2]
+  exact h0.pushAll _
+
+/-- a simulation makes the two runs indistinguishable: same delivered trace, same refused
+    notifications, same steps, same gates — for every raw script, source mode and subscription context -/
+theorem Machine.Sim.run {R : σ₁ → σ₂ → Prop} {m1 : Machine σ₁ α β} {m2 : Machine σ₂ α β}
+    (hs : m1.Sim R m2) (mode : SrcMode) (sub : Ctx) (raw : List (Notif α)) :
+    RunSt.Rel R (runOp m1 mode sub raw) (runOp m2 mode sub raw) := by
+  unfold runOp
+  simp only []
+  rw [hs.subscribes]
+  have h0 := hs.start sub
+  cases m2.subscribes
+  · exact h0
+  · simp only [if_true]
+    apply RunSt.Rel.foldFeed hs mode raw
+    unfold RunSt.afterSubscribe
+    rw [h0.downOpen]
+    split
+    · exact ⟨h0.st, rfl, by first | rfl | exact h0.downOpen, h0.out, h0.drops, h0.steps⟩
+    · exact h0
+
+theorem Machine.Sim.runCut {R : σ₁ → σ₂ → Prop} {m1 : Machine σ₁ α β} {m2 : Machine σ₂ α β}
+    (hs : m1.Sim R m2) (sub : Ctx) (raw : List (Notif α)) (k : Nat) :
+    RunSt.Rel R (runOpCut m1 sub raw k) (runOpCut m2 sub raw k) := by
+  unfold runOpCut
+  simp only []
+  rw [hs.subscribes]
+  have h0 := hs.start sub
+  cases m2.subscribes
+  · exact h0
+  · simp only [if_true]
+    apply RunSt.Rel.foldFeed hs .hot
+    have h1 : RunSt.Rel R ((m1.start sub).afterSubscribe .hot) ((m2.start sub).afterSubscribe .hot) := by
+      unfold RunSt.afterSubscribe
+      rw [h0.downOpen]
+      split
+      · exact ⟨h0.st, rfl, by first | rfl | exact h0.downOpen, h0.out, h0.drops, h0.steps⟩
+      · exact h0
+    have h2 := RunSt.Rel.foldFeed hs .hot (raw.take k) h1
+    exact ⟨h2.st, rfl, rfl, h2.out, h2.drops, h2.steps⟩
+
+theorem Machine.Sim.out {R : σ₁ → σ₂ → Prop} {m1 : Machine σ₁ α β} {m2 : Machine σ₂ α β}
+    (hs : m1.Sim R m2) (mode : SrcMode) (sub : Ctx) (raw : List (Notif α)) :
+    (runOp m1 mode sub raw).out = (runOp m2 mode sub raw).out := (hs.run mode sub raw).out
+
+/-- equal machines simulate each other through equality of states -/
+theorem Machine.Sim.ofEq {m1 m2 : Machine σ α β} (h : m1 = m2) : m1.Sim (· = ·) m2 := by
+  subst h
+  exact ⟨rfl, rfl, fun _ _ _ h => by subst h; exact ⟨rfl, rfl⟩, fun _ _ _ _ h => by subst h; exact ⟨rfl, rfl⟩,
+    fun _ _ _ _ h => by subst h; exact ⟨rfl, rfl⟩, fun _ _ _ h => by subst h; exact ⟨rfl, rfl⟩⟩
+/-- simulation through the trivial relation: the two machines make the same emissions from any states -/
+syntax "sim_any " ident ident : tactic
+macro_rules
+  | `(tactic| sim_any $a $b) => `(tactic|
+      (refine ⟨trivial, rfl, fun _ _ _ _ => ⟨trivial, ?_⟩, fun _ _ _ _ _ => ⟨trivial, ?_⟩, fun _ _ _ _ _ => ⟨trivial, ?_⟩, fun _ _ _ _ => ⟨trivial, ?_⟩⟩ <;>
+        first | rfl | (simp only [$a:ident, $b:ident] <;> repeat' split) <;> first | rfl | simp_all))
+
+
+/-! ### list lemmas for the ring buffer of `SkipLast` and the index loop of `TakeLast` -/
+
+theorem map_range_getD (l : List α) (d : α) {γ : Type} (f : α → γ) :
+    (List.range l.length).map (fun i => f (l.getD i d)) = l.map f := by
+  apply List.ext_getElem
+  · simp
+  · intro i h1 h2
+    have hi : i < l.length := by simpa using h1
+    simp [List.getD_eq_getElem?_getD, List.getElem?_eq_getElem hi]
+
+theorem take_succ_set (l : List α) (n : Nat) (x : α) (h : n < l.length) :
+    (l.set n x).take (n + 1) = l.take n ++ [x] := by
+  induction l generalizing n with
+  | nil => simp at h
+  | cons a l ih =>
+    cases n with
+    | zero => simp
+    | succ n => simp at h; simp [ih n h]
+
+theorem set_last (l : List α) (n : Nat) (x : α) (h : n + 1 = l.length) : l.set n x = l.take n ++ [x] := by
+  have := take_succ_set l n x (by omega)
+  rw [← this, List.take_of_length_le (by simp; omega)]
+
+theorem drop_succ_set (l : List α) (n : Nat) (x : α) : (l.set n x).drop (n + 1) = l.drop (n + 1) := by
+  induction l generalizing n with
+  | nil => simp
+  | cons a l ih =>
+    cases n with
+    | zero => simp
+    | succ n => simp [ih n]
+
+theorem drop_eq_getD_cons (l : List α) (n : Nat) (d : α) (h : n < l.length) : l.drop n = l.getD n d :: l.drop (n + 1) := by
+  rw [List.drop_eq_getElem_cons h]
+  simp [List.getD_eq_getElem?_getD, List.getElem?_eq_getElem h]
 
 end Ro
